@@ -27,6 +27,9 @@ def ev_op(op, st):
     return UNK
 
 
+SYMBOLIC = ("sym", "proj", "app")
+
+
 def ev_place(p, st):
     v = st.get(p["l"], UNK)
     for e in p["pr"]:
@@ -35,15 +38,24 @@ def ev_place(p, st):
         if e[0] == "deref":
             if v[0] == "ref":
                 v = v[1]
+            elif v[0] in SYMBOLIC:
+                pass  # references are transparent for symbolic terms
             else:
                 return UNK
         elif e[0] == "downcast":
-            if v[0] == "adt" and v[2] == e[2]:
+            if v[0] == "adt":
+                if v[2] == e[2]:
+                    continue
+                return UNK
+            if v[0] in SYMBOLIC:
+                v = ("proj", v, ("as", e[1]))
                 continue
             return UNK
         elif e[0] == "field":
-            if v[0] in ("adt", "tuple") and e[1] < len(v[-1]):
+            if v[0] in ("adt", "tuple", "closure") and e[1] < len(v[-1]):
                 v = v[-1][e[1]]
+            elif v[0] in SYMBOLIC:
+                v = ("proj", v, ("field", e[2]))
             else:
                 return UNK
         else:
@@ -82,6 +94,8 @@ def ev_rvalue(r, st):
             return ("adt", r["adt"] + "::" + r["variant"], r["vidx"], vals)
         if r["ak"] == "tuple":
             return ("tuple", vals)
+        if r["ak"] == "closure":
+            return ("closure", r["closure"], vals)
         return UNK
     if k == "discr":
         v = ev_place(r["p"], st)
@@ -90,7 +104,9 @@ def ev_rvalue(r, st):
         return UNK
     if k in ("ref",):
         v = ev_place(r["p"], st)
-        return ("ref", v) if v is not UNK else UNK
+        if v is UNK:
+            return UNK
+        return v if v[0] in SYMBOLIC else ("ref", v)
     if k == "copyforderef":
         return ev_place(r["p"], st)
     if k == "cast":
@@ -258,3 +274,88 @@ def truth_table(body, atoms):
                                    for b in path if body.blocks[b]["t"]["k"] == "call") else "?"
             table.setdefault(executed, set()).add(out)
     return table
+
+
+def strip_ref(v):
+    while v and v[0] == "ref":
+        v = v[1]
+    return v
+
+
+def term_eval(facts, body, args=None, inline=lambda path: True, depth=0, max_paths=64):
+    """Symbolically evaluate `body` with symbolic arguments; returns a list of
+    (return_value_term, path_blocks) for every abstract return path.  Calls of closures / local
+    functions accepted by `inline` are evaluated recursively (must have a single return path,
+    otherwise the result is an opaque application term)."""
+    st0 = {}
+    for i in range(1, body.argc + 1):
+        st0[i] = args[i - 1] if args else ("sym", "arg%d" % i)
+
+    def hook(bi, t, st):
+        c = core.callee_of(t)
+        decl = core.callee_decl(t)
+        vals = [strip_ref(ev_op(a, st)) for a in t["args"]]
+        if decl in ("std::ops::FnOnce::call_once", "std::ops::FnMut::call_mut", "std::ops::Fn::call") or \
+                (c and "{closure#" in c.split("::")[-1]):
+            f = vals[0] if vals else UNK
+            a = vals[1] if len(vals) > 1 else UNK
+            targs = a[1] if a and a[0] == "tuple" else (a,)
+            cb = None
+            if f and f[0] == "closure":
+                cb = facts.body(f[1])
+            elif c and facts.body(c) is not None and "{closure#" in c:
+                cb = facts.body(c)
+            if cb is not None and depth < 6 and inline(cb.path):
+                r = term_eval(facts, cb, [f] + list(targs), inline, depth + 1, max_paths)
+                outs = {repr(x[0]) for x in r}
+                if len(r) >= 1 and len(outs) == 1:
+                    return r[0][0]
+                return ("app", ("multi", cb.path), tuple(targs))
+            if f is UNK:
+                return UNK
+            return ("app", f, tuple(targs))
+        if c and facts.body(c) is not None and depth < 6 and inline(c) and "{closure#" not in c and c != body.path:
+            r = term_eval(facts, facts.body(c), vals, inline, depth + 1, max_paths)
+            outs = {repr(x[0]) for x in r}
+            if len(r) >= 1 and len(outs) == 1:
+                return r[0][0]
+            return ("app", ("multi", c), tuple(vals))
+        return ("app", ("fn", c or decl or "?"), tuple(vals))
+
+    res = []
+    for path, st, kind in explore(body, hook, state=st0, max_paths=max_paths):
+        if kind == "return":
+            res.append((st.get(0, UNK), path))
+    return res
+
+
+def show_term(v):
+    if v is UNK:
+        return "?"
+    k = v[0]
+    if k == "c":
+        return str(v[1])
+    if k == "s":
+        return repr(v[1])
+    if k == "sym":
+        return v[1]
+    if k == "proj":
+        e = v[2]
+        if e[0] == "as":
+            return "(%s as %s)" % (show_term(v[1]), e[1])
+        return "%s.%s" % (show_term(v[1]), e[1])
+    if k == "app":
+        return "%s(%s)" % (show_term(v[1]), ", ".join(show_term(x) for x in v[2]))
+    if k == "fn":
+        return v[1]
+    if k == "multi":
+        return "<multi-path %s>" % v[1]
+    if k == "adt":
+        return "%s{%s}" % (v[1].split("::")[-1], ", ".join(show_term(x) for x in v[3]))
+    if k == "tuple":
+        return "(%s)" % ", ".join(show_term(x) for x in v[1])
+    if k == "closure":
+        return "closure<%s>[%s]" % (v[1].split("::")[-1], ", ".join(show_term(x) for x in v[2]))
+    if k == "ref":
+        return "&" + show_term(v[1])
+    return str(v)
